@@ -87,6 +87,7 @@ sp_colorder(SuperMatrix *A, int_t *perm_c, superlumt_options_t *options,
     AC->ncol        = A->ncol;
     Astore          = A->Store;
     ACstore = AC->Store = (void *) malloc( sizeof(NCPformat) );
+    if ( !ACstore ) SUPERLU_ABORT("malloc fails for ACstore");
     ACstore->nnz    = Astore->nnz;
     ACstore->nzval  = Astore->nzval;
     ACstore->rowind = Astore->rowind;
